@@ -18,7 +18,7 @@ for patch in "$here"/mutants/*.patch; do
   [ -e "$patch" ] || continue
   exp="${patch%.patch}.expect"
   [ -e "$exp" ] || { echo "SELFTEST missing .expect for $patch"; fail=1; continue; }
-  if [ -n "$want" ] && ! grep -q "^$want " "$exp"; then continue; fi
+  if [ -n "$want" ] && ! grep -q "^$want[ @]" "$exp"; then continue; fi
   rm -rf "$tmp/repo"; mkdir -p "$tmp/repo"
   rsync -a --exclude .git /repo/ "$tmp/repo/"
   if ! (cd "$tmp/repo" && patch -p1 -s --no-backup-if-mismatch < "$patch" >/dev/null 2>&1); then
@@ -27,8 +27,10 @@ for patch in "$here"/mutants/*.patch; do
   while read -r prop needle; do
     [ -z "$prop" ] && continue
     case "$prop" in \#*) continue;; esac
+    tier=quick
+    case "$prop" in *@thorough) tier=thorough; prop=${prop%@thorough};; esac
     if [ -n "$want" ] && [ "$prop" != "$want" ]; then continue; fi
-    out=$(/verif/bin/sfcheck -property "$prop" -repo "$tmp/repo" -no-evidence 2>&1); rc=$?
+    out=$(/verif/bin/sfcheck -property "$prop" -tier "$tier" -repo "$tmp/repo" -no-evidence 2>&1); rc=$?
     ran=$((ran+1))
     if [ $rc -ne 1 ] || ! printf '%s' "$out" | grep -qF -- "$needle"; then
       echo "SELFTEST FAIL $(basename "$patch") property=$prop: expected exit 1 naming '$needle' (exit $rc)"; fail=1
